@@ -13,6 +13,8 @@ earlier forks finish.  The node can however never be reported Complete
 import Martian.Sched
 import Proofs.Sched
 import Proofs.SchedTrans
+import Martian.SchedProgress
+import Proofs.SchedProgress
 
 namespace Props.C06
 open Martian.Sched
@@ -138,6 +140,62 @@ theorem dependents_blocked_transitive {g : List NodeInfo} {s : State} {o : Obj} 
     rw [hfail] at this
     rcases this with h | h <;> cases h
 
+/-- `dependents_never_complete_transitive`: while an upstream node `p` of `n` (transitively,
+`Upstream`) is unfinished — in particular while it has a failed fork — no fork of `n` has a
+`_complete` and `n` is not Complete: the failure cannot be overtaken, the pipestance cannot
+report success for anything that consumes the failed call. -/
+theorem dependents_never_complete_transitive {g : List NodeInfo} {s : State} {n p : Nat}
+    (hr : Reach g s) (hro : s.reopened = false) (hu : Upstream s n p)
+    (hnd : nodeDone s p = false) :
+    (∀ f, (s.m ⟨n, f, .fork⟩).disk.has .complete = false) ∧ nodeState s n ≠ .complete :=
+  upstream_blocks_completion (reach_objsInv hr) (reach_completeInv hr) hro hu hnd
+
+/-- a node with a failed fork is unfinished (so the two theorems above apply to it) -/
+theorem failed_fork_unfinished {s : State} {p f : Nat} (hf : f ∈ s.forksOf p)
+    (hfail : forkState s p f = .failed) : nodeDone s p = false := by
+  cases hd : nodeDone s p
+  · rfl
+  · have := forkState_done.mpr (nodeDone_iff.mp hd f hf)
+    rw [hfail] at this
+    rcases this with h | h <;> cases h
+
+/-- `independent_unaffected` (progress half; the guard half is below): in ANY reachable
+state — whatever has failed elsewhere in the pipestance — a node whose own objects carry
+no failure marker, whose prenodes are finished and whose cached state is current is either
+finished or can take a step: some quiet event (stub/fork `_complete`, chunk definition, job
+submission, start, end, journal read) of the scheduler/job alphabet is enabled and lowers
+the progress measure.  Failures block exactly the downstream of the failed call. -/
+theorem independent_node_can_progress {g : List NodeInfo} {s : State} {n : Nat} (hr : Reach g s)
+    (hn : n < s.nodes.length) (hph : s.phase = .normal)
+    (hfresh : s.cachedOf n = nodeState s n) (hpre : ∀ p ∈ s.pre n, nodeDone s p = true)
+    (hclean : ∀ f r, (s.m ⟨n, f, r⟩).disk.has .errors = false ∧
+      (s.m ⟨n, f, r⟩).disk.has .assert = false) :
+    nodeDone s n = true ∨ ∃ e, Progress s e := by
+  cases hd : nodeDone s n
+  · exact Or.inr (node_progress (reach_objsInv hr) (reach_roleInv hr) (reach_launchInv hr) hn hph
+      hfresh hpre hclean hd)
+  · exact Or.inl rfl
+
+/-- `error_names_stage`: what `Node.getFatalError` (model `fatalError`: the first metadata in
+`collectMetadatas` order whose state is failed; `_errors` before `_assert`) reports is a
+metadata object OF THE FAILED NODE — one of its forks' own metadata, split, join or a chunk
+the split defined — whose state is failed and which does contain the reported file. -/
+theorem error_names_stage {s : State} {n : Nat} {o : Obj} {x : Sentinel}
+    (h : fatalError s n = some (o, x)) :
+    o.n = n ∧ o.f ∈ s.forksOf n ∧ (∀ i, o.r = .chunk i → i < s.nch n o.f) ∧
+    s.st o = some .failed ∧ (s.m o).seen.has x = true ∧
+    (x = .errors ∨ (x = .assert ∧ (s.m o).seen.has .errors = false)) := by
+  obtain ⟨hm, hst, hx, hk⟩ := fatalErrorIn_spec h
+  obtain ⟨a, b, c⟩ := collect_mem hm
+  exact ⟨a, b, c, hst, hx, hk⟩
+
+/-- … and it is complete: a node whose state is Failed always has something to report -/
+theorem failed_node_reports {s : State} {n : Nat} (h : nodeState s n = .failed) :
+    ∃ o x, fatalError s n = some (o, x) := by
+  obtain ⟨o, hm, hf⟩ := failed_node_has_failed_obj h
+  obtain ⟨⟨o', x⟩, hr⟩ := fatalErrorIn_some hm hf
+  exact ⟨o', x, hr⟩
+
 /-- two states that agree on everything belonging to node `n` -/
 structure SameNode (n : Nat) (s s' : State) : Prop where
   phase : s.phase = s'.phase
@@ -211,5 +269,33 @@ example : s3.reopened = false := by decide
 example : Upstream s3 2 0 := .step (q := 1) (by decide) (by decide) (.direct (by decide))
 example : 0 ∈ s3.forksOf 0 ∧ forkState s3 0 0 = .failed ∧
     enabled s3 (.launch ⟨2, 0, .chunk 0⟩) = false := by decide
+
+/-- in the chain 0 → 1 → 2 with node 0 failed: node 2 has no complete fork and is not
+Complete (transitively), node 0 is Failed and `getFatalError` names its chunk and `_errors` -/
+example : (∀ f, (s3.m ⟨2, f, .fork⟩).disk.has .complete = false) ∧ nodeState s3 2 ≠ .complete :=
+  dependents_never_complete_transitive (g := g3) (p := 0) (reach_of_match g3 h3) (by decide)
+    (.step (q := 1) (by decide) (by decide) (.direct (by decide))) (by decide)
+
+example : nodeState s3 0 = .failed ∧ fatalError s3 0 = some (⟨0, 0, .chunk 0⟩, .errors) := by decide
+
+/-- an independent node goes on: two stages without a dependency between them, the chunk of
+node 0 has failed; node 1 satisfies the hypotheses of `independent_node_can_progress` and
+its stub `_complete` can be written -/
+def g4 : List NodeInfo := [{ kind := .stage, pre := [] }, { kind := .stage, pre := [] }]
+
+def h4 : List Ev :=
+  [.fork 0 0, .nodestate 0 .running, .fork 1 0, .nodestate 1 .running, .refresh,
+   .W ⟨0, 0, .split⟩ .complete, .mkchunks 0 0 1, .launch ⟨0, 0, .chunk 0⟩,
+   .joblog ⟨0, 0, .chunk 0⟩, .jobend ⟨0, 0, .chunk 0⟩ .errors, .refresh,
+   .R ⟨0, 0, .chunk 0⟩ .errors, .nodestate 0 .failed]
+
+def s4 : State := match replay (init g4) h4 with
+  | .ok s => s
+  | .error _ => init g4
+
+example : (match replay (init g4) h4 with | .ok _ => true | .error _ => false) = true := by decide
+example : nodeState s4 0 = .failed ∧ s4.phase = .normal ∧ s4.cachedOf 1 = nodeState s4 1 ∧
+    nodeDone s4 1 = false ∧ s4.pre 1 = [] := by decide
+example : Progress s4 (.W ⟨1, 0, .split⟩ .complete) := ⟨by decide, by decide, by decide⟩
 
 end Props.C06
